@@ -387,7 +387,7 @@ func fuzzy(elems []any, nonTerminals []lex.Token, defaultField string) ([]any, [
 	}
 
 	distance, ok := elems[2].(*expr.Expression)
-	if !ok {
+	if !ok || distance.Op != expr.Literal {
 		return elems, nonTerminals, false
 	}
 
@@ -432,7 +432,7 @@ func boost(elems []any, nonTerminals []lex.Token, defaultField string) ([]any, [
 	}
 
 	power, ok := elems[2].(*expr.Expression)
-	if !ok {
+	if !ok || power.Op != expr.Literal {
 		return elems, nonTerminals, false
 	}
 
